@@ -118,6 +118,10 @@ def check_trace(res, case, rec):
         res["violations"].append({"kind": "first-filter-call-is-not-all-none", "case": case})
         return False
     for fs, ts, action, production, sub, ctx in calls[1:]:
+        if action is None:
+            res["violations"].append({"kind": "initialisation-call-repeated-inside-a-parse", "case": case,
+                                      "observed": [i for i, c in enumerate(calls) if c[2] is None][:8]})
+            return False
         if action is SHIFT:
             if not ts.symbol.dynamic:
                 res["violations"].append({"kind": "filter-called-for-unmarked-shift", "case": case,
@@ -132,6 +136,11 @@ def check_trace(res, case, rec):
                 res["violations"].append({"kind": "filter-called-without-the-reduction-sub-results", "case": case,
                                           "observed": [str(production), None if sub is None else len(sub)]})
                 return False
+            syms = [getattr(getattr(x, "symbol", None), "name", None) for x in sub]
+            if all(x is not None for x in syms) and syms != [production.rhs[i].name for i in range(len(production.rhs))]:
+                res["violations"].append({"kind": "filter-sub-results-are-not-those-of-the-reduction", "case": case,
+                                          "observed": [str(production), syms]})
+                return False
         else:
             res["violations"].append({"kind": "filter-called-with-unknown-action", "case": case,
                                       "observed": repr(action)})
@@ -143,14 +152,102 @@ def units(tier):
     k = 2 if tier == "quick" else 3
     names = ["p%d" % i for i in range(k)] + ["t%d" % i for i in range(k)]
     subsets = [set(c) for r in range(len(names) + 1) for c in itertools.combinations(names, r)]
-    return [{"k": k, "marks": [sorted(s) for s in ch], "m": 4 if tier == "quick" else 5}
-            for ch in chunks(subsets, 8)]
+    us = [{"k": k, "marks": [sorted(s) for s in ch], "m": 4 if tier == "quick" else 5}
+          for ch in chunks(subsets, 8)]
+    us.append({"kind": "unary", "m": 3 if tier == "quick" else 4})
+    return us
+
+
+UNARY_LAYOUT = ("LAYOUT: LayoutItem | LAYOUT LayoutItem | EMPTY;\nLayoutItem: WS | Comment;\n", "WS: /\\s+/;\nComment: /\\/\\/.*/;\n")
+
+
+def unary_grammar(marks, layout):
+    """Optional unary sign: an EMPTY production that can be marked dynamic; optional LAYOUT rule."""
+    def m(x):
+        return " {dynamic}" if x in marks else ""
+    return ("E: E op0 E {left%s} | Neg n;\nNeg: minus%s | EMPTY%s;\n" % (", dynamic" if "p" in marks else "", m("m"), m("e"))
+            + (UNARY_LAYOUT[0] if layout else "") + "terminals\nn: \"n\";\nop0: \"+\"%s;\nminus: \"-\";\n" % m("t")
+            + (UNARY_LAYOUT[1] if layout else ""))
+
+
+def run_unary(u, res):
+    st = res["stats"]
+    atoms = ["n", "-n"]
+    exprs = []
+    for n in range(1, u["m"] + 1):
+        for c in itertools.product(atoms, repeat=n):
+            exprs.append("+".join(c))
+    for layout in (False, True):
+        seps = ["", " "] + (["  // c\n "] if layout else [])
+        for r in range(5):
+            for marks in itertools.combinations(["p", "m", "e", "t"], r):
+                marks = set(marks)
+                gtxt = unary_grammar(marks, layout)
+                g = Grammar.from_string(gtxt)
+                st["grammars"] += 1
+                for fname, decide in (("accept-all", accept_all),):
+                    for kind in ("LR", "GLR"):
+                        rec = Recorder(decide)
+                        try:
+                            if kind == "LR":
+                                p = Parser(g, build_tree=True, dynamic_filter=rec)
+                                p0 = Parser(g, build_tree=True)
+                            else:
+                                p = GLRParser(g, dynamic_filter=rec)
+                                p0 = GLRParser(g)
+                        except (SRConflicts, RRConflicts):
+                            st["lr_conflict_errors"] += 1
+                            continue
+                        for e in exprs:
+                            for sep in seps:
+                                text = sep + sep.join(e) + sep
+                                case = {"grammar": gtxt, "filter": fname, "parser": kind, "input": text}
+                                rec.calls = []
+
+                                def out_of(pp):
+                                    try:
+                                        r_ = pp.parse(text)
+                                    except parglare.ParseError as ex:
+                                        return type(ex).__name__
+                                    if kind == "LR":
+                                        return r_.to_str()
+                                    return sorted(r_[i].to_str() for i in range(min(r_.solutions, 20)))
+                                try:
+                                    got = out_of(p)
+                                except Exception as ex:
+                                    res["violations"].append({"kind": "foreign-exception", "case": case,
+                                                              "observed": type(ex).__name__ + ": " + str(ex)[:100]})
+                                    continue
+                                calls = list(rec.calls)
+                                res["evaluations"] += 1
+                                st["runs"] += 1
+                                st["filter_calls"] += len(calls)
+                                if not check_trace(res, case, rec):
+                                    continue
+                                if len(calls) >= 3:
+                                    res["nontrivial"].append(h16(case))
+                                want = out_of(p0)
+                                if got != want:
+                                    res["violations"].append({"kind": "accept-all-filter-changes-the-result",
+                                                              "case": case, "observed": str(got)[:200],
+                                                              "expected": str(want)[:200]})
+                                # marked decisions that certainly occur: every reduction of a marked production
+                                if kind == "LR" and isinstance(got, str) and "e" in marks:
+                                    n_empty = sum(1 for c in calls[1:] if c[2] is REDUCE and len(c[3].rhs) == 0)
+                                    want_empty = sum(1 for a in e.split("+") if a == "n")
+                                    if n_empty != want_empty:
+                                        res["violations"].append({"kind": "marked-empty-reduction-not-shown-to-the-filter",
+                                                                  "case": case, "observed": n_empty,
+                                                                  "expected": want_empty})
+    return res
 
 
 def run_unit(u):
     res = {"evaluations": 0, "nontrivial": [], "samples": [], "violations": [], "disagreements": [],
            "stats": {"grammars": 0, "runs": 0, "filter_calls": 0, "lr_conflict_errors": 0, "traces": 0}}
     st = res["stats"]
+    if u.get("kind") == "unary":
+        return run_unary(u, res)
     k = u["k"]
     exprs = expressions(k, u["m"])
     g_static = Grammar.from_string(grammar(set(), k, static=True))
